@@ -15,6 +15,7 @@ def main():
     rc, out = sh("git status --porcelain", cwd="/repo")
     assert not out.strip(), "/repo is not clean: " + out
     missed = []
+    results = {}
     for d in sorted(glob.glob(os.path.join(ROOT, "seeded", "*", "meta.json"))):
         m = json.load(open(d))
         sid, prop = m["id"], m["breaks_property"]
@@ -31,11 +32,18 @@ def main():
         v = [l for l in out.splitlines() if l.startswith("VIOLATION")]
         kind = "no-failing-input-found" if v and all("no-failing-input-found" in l for l in v) else "failing input"
         print(f"{sid:45s} {prop} rc={rc} {kind if rc == 1 else 'NOT DETECTED'} {time.time() - t:5.1f}s", flush=True)
+        results[sid] = {"property": prop, "rc": rc, "verdict": (kind if rc == 1 else "not detected"),
+                        "first_line": (v[0][:300] if v else ""), "seed": int(os.environ.get("VERIF_SEED", "0") or 0)}
         if rc != 1:
             missed.append(sid)
     rc, out = sh("git status --porcelain", cwd="/repo")
     assert not out.strip(), out
     print("missed:", missed)
+    weak = [k for k, r in results.items() if r["verdict"] == "no-failing-input-found"]
+    print("reported without a failing input:", weak)
+    if not want:
+        json.dump({"seed": int(os.environ.get("VERIF_SEED", "0") or 0), "results": results},
+                  open(os.path.join(ROOT, "seeded", "regress.json"), "w"), indent=1)
     sys.exit(1 if missed else 0)
 
 if __name__ == "__main__":
